@@ -1,4 +1,5 @@
 import CCVerif.Model.Core
+import CCVerif.Lemmas.Core
 /-!
 # C09 — identity and ordering invariants of a schema hold after any edit history
 
@@ -94,5 +95,402 @@ example : ∃ st, run [.emplace .term 7, .insert 7 "D1" .term 9, .insert 3 "X1" 
     .erase 3, .erase 7, .setAlias 9 "D5", .moveBefore 3 0, .resetAliases] = some st ∧
     st.order = [3, 9] ∧ st.store.map (·.alias) = ["X1", "D1"] := by
   refine ⟨_, rfl, ?_, ?_⟩ <;> decide
+
+/-! ## every operation preserves the invariant -/
+
+theorem kindSorted_iff (st : St) : KindSorted st ↔ Sorted (prioIn st.store) st.order := Iff.rfl
+
+theorem Inv.uid_inj {st : St} (h : Inv st) :
+    ∀ x ∈ st.store, ∀ y ∈ st.store, x.uid = y.uid → x = y := injOn_of_nodup_map h.storeNodup
+
+theorem Inv.alias_inj {st : St} (h : Inv st) :
+    ∀ x ∈ st.store, ∀ y ∈ st.store, x.alias = y.alias → x = y := injOn_of_nodup_map h.aliasNodup
+
+/-- common tail of `emplace` / `insert`: a new uid with a new alias of the right kind -/
+theorem inv_insertCst {st : St} (h : Inv st) {u : Nat} {a : String} {t : CstType}
+    (hu : u ∉ st.ids) (ha : a ∉ st.names) (hk : typeForName a = some t) :
+    Inv (insertCst st (u :: st.ids) (a :: st.names) { uid := u, alias := a, type := t }) := by
+  have hus : u ∉ st.store.map (·.uid) := fun hm => hu ((h.idsEq u).2 hm)
+  have hf1 : st.store.filter (·.uid != u) = st.store := by
+    rw [List.filter_eq_self]; intro c hc
+    simp only [bne_iff_ne, ne_eq]
+    intro heq; exact hus (heq ▸ List.mem_map_of_mem hc)
+  have hf2 : st.texts.filter (· != u) = st.texts := by
+    rw [List.filter_eq_self]; intro v hv
+    simp only [bne_iff_ne, ne_eq]
+    intro heq; exact hus ((h.textsEq u).1 (heq ▸ hv))
+  have huo : u ∉ st.order := fun hm => hus ((h.orderEq u).1 hm)
+  unfold insertCst
+  simp only [hf1, hf2]
+  constructor
+  · simp only [List.map_cons, List.nodup_cons]; exact ⟨hus, h.storeNodup⟩
+  · simp only [List.map_cons, List.nodup_cons]
+    exact ⟨fun hm => ha ((h.namesEq a).2 hm), h.aliasNodup⟩
+  · intro c hc
+    simp only [List.mem_cons] at hc
+    rcases hc with rfl | hc
+    · exact hk
+    · exact h.aliasKind c hc
+  · intro v; simp only [List.mem_cons, List.map_cons, h.idsEq v]
+  · intro b; simp only [List.mem_cons, List.map_cons, h.namesEq b]
+  · exact nodup_insertAt huo h.orderNodup
+  · intro v; simp only [mem_insertAt, List.mem_cons, List.map_cons, h.orderEq v]
+  · intro v; simp only [List.mem_cons, List.map_cons, h.textsEq v]
+  · intro v hv; simp only [List.map_cons, List.mem_cons]; exact Or.inr (h.trackSub v hv)
+  · rw [kindSorted_iff]
+    simp only []
+    have hs0 : Sorted (prioIn ({ uid := u, alias := a, type := t } :: st.store)) st.order := by
+      apply ((kindSorted_iff st).1 h.sorted).congr
+      intro v hv
+      unfold prioIn
+      rw [typeIn_cons_ne]
+      intro heq; apply huo; have : v = u := heq
+      rw [← this]; exact hv
+    have hpu : prioIn ({ uid := u, alias := a, type := t } :: st.store) u = t.priority := by
+      unfold prioIn
+      rw [typeIn_cons_self ({ uid := u, alias := a, type := t } : Cst)]
+    have hsp := insertPosition_spec
+      { ids := u :: st.ids, names := a :: st.names,
+        store := { uid := u, alias := a, type := t } :: st.store, texts := u :: st.texts,
+        order := st.order, tracking := st.tracking } st.order t hs0
+    apply sorted_insertAt hs0
+    · intro x hx; rw [hpu]; exact hsp.1 x hx
+    · intro x hx; rw [hpu]; exact hsp.2 x hx
+
+
+
+theorem mem_map_uid_filter {store : List Cst} {uid v : Nat} :
+    v ∈ (store.filter (·.uid != uid)).map (·.uid) ↔ v ∈ store.map (·.uid) ∧ v ≠ uid := by
+  simp only [List.mem_map, List.mem_filter, bne_iff_ne, ne_eq]
+  constructor
+  · rintro ⟨x, ⟨hx, hne⟩, rfl⟩; exact ⟨⟨x, hx, rfl⟩, hne⟩
+  · rintro ⟨⟨x, hx, rfl⟩, hne⟩; exact ⟨x, ⟨hx, hne⟩, rfl⟩
+
+theorem inv_erase {st : St} (h : Inv st) {uid : Nat} {c : Cst} (hc : st.find uid = some c) :
+    Inv { ids := st.ids.filter (· != uid), names := st.names.filter (· != c.alias),
+          store := st.store.filter (·.uid != uid), texts := st.texts.filter (· != uid),
+          order := st.order.filter (· != uid), tracking := st.tracking.filter (· != uid) } := by
+  obtain ⟨hcm, hcu⟩ := find_eq_some hc
+  constructor
+  · exact List.Nodup.sublist (List.filter_sublist.map _) h.storeNodup
+  · exact List.Nodup.sublist (List.filter_sublist.map _) h.aliasNodup
+  · intro x hx; exact h.aliasKind x (List.mem_filter.1 hx).1
+  · intro v
+    simp only [mem_map_uid_filter, List.mem_filter, bne_iff_ne, ne_eq, h.idsEq v]
+  · intro a
+    simp only [List.mem_filter, bne_iff_ne, ne_eq, h.namesEq a, List.mem_map]
+    constructor
+    · rintro ⟨⟨x, hx, rfl⟩, hne⟩
+      refine ⟨x, ⟨hx, ?_⟩, rfl⟩
+      intro hxu
+      exact hne (by rw [h.uid_inj x hx c hcm (hxu.trans hcu.symm)])
+    · rintro ⟨x, ⟨hx, hne⟩, rfl⟩
+      refine ⟨⟨x, hx, rfl⟩, ?_⟩
+      intro hal
+      exact hne (by rw [h.alias_inj x hx c hcm hal]; exact hcu)
+  · exact List.Nodup.sublist List.filter_sublist h.orderNodup
+  · intro v
+    simp only [mem_map_uid_filter, List.mem_filter, bne_iff_ne, ne_eq, h.orderEq v]
+  · intro v
+    simp only [mem_map_uid_filter, List.mem_filter, bne_iff_ne, ne_eq, h.textsEq v]
+  · intro v hv
+    simp only [List.mem_filter, bne_iff_ne, ne_eq] at hv
+    exact mem_map_uid_filter.2 ⟨h.trackSub v hv.1, hv.2⟩
+  · rw [kindSorted_iff]
+    apply (((kindSorted_iff st).1 h.sorted).sublist List.filter_sublist).congr
+    intro v hv
+    simp only [List.mem_filter, bne_iff_ne, ne_eq] at hv
+    unfold prioIn
+    rw [typeIn_filter_ne hv.2]
+
+theorem inv_setAlias {st : St} (h : Inv st) {uid : Nat} {name : String} {c : Cst}
+    (hc : st.find uid = some c) (hn : name ∉ st.names) (hk : typeForName name = some c.type) :
+    Inv { st with names := name :: st.names.filter (· != c.alias),
+                  store := st.store.map (fun x => if x.uid = uid then { x with alias := name } else x) } := by
+  obtain ⟨hcm, hcu⟩ := find_eq_some hc
+  have hg : ∀ x : Cst, (if x.uid = uid then { x with alias := name } else x).uid = x.uid ∧
+      (if x.uid = uid then { x with alias := name } else x).type = x.type := by
+    intro x; split <;> exact ⟨rfl, rfl⟩
+  have hga : ∀ x : Cst, (if x.uid = uid then { x with alias := name } else x).alias =
+      if x.uid = uid then name else x.alias := by
+    intro x; split <;> rfl
+  have hmapuid : (st.store.map (fun x => if x.uid = uid then { x with alias := name } else x)).map (·.uid)
+      = st.store.map (·.uid) := by
+    rw [List.map_map]; apply List.map_congr_left; intro x _; exact (hg x).1
+  have hns : name ∉ st.store.map (·.alias) := fun hm => hn ((h.namesEq name).2 hm)
+  constructor
+  · simp only [hmapuid]; exact h.storeNodup
+  · simp only [List.map_map]
+    apply nodup_map_of_injOn (nodup_of_nodup_map h.storeNodup)
+    intro x hx y hy hxy
+    simp only [Function.comp, hga] at hxy
+    by_cases hxu : x.uid = uid <;> by_cases hyu : y.uid = uid
+    · exact h.uid_inj x hx y hy (hxu.trans hyu.symm)
+    · rw [if_pos hxu, if_neg hyu] at hxy
+      exact absurd (hxy ▸ List.mem_map_of_mem hy) hns
+    · rw [if_neg hxu, if_pos hyu] at hxy
+      exact absurd (hxy ▸ List.mem_map_of_mem hx) hns
+    · rw [if_neg hxu, if_neg hyu] at hxy
+      exact h.alias_inj x hx y hy hxy
+  · intro c' hc'
+    simp only [List.mem_map] at hc'
+    obtain ⟨x, hx, rfl⟩ := hc'
+    by_cases hxu : x.uid = uid
+    · rw [if_pos hxu]
+      rw [h.uid_inj x hx c hcm (hxu.trans hcu.symm)]
+      exact hk
+    · rw [if_neg hxu]; exact h.aliasKind x hx
+  · intro v; simp only [hmapuid]; exact h.idsEq v
+  · intro a
+    simp only [List.map_map, List.mem_cons, List.mem_filter, bne_iff_ne, ne_eq, List.mem_map,
+      Function.comp, hga, h.namesEq a]
+    constructor
+    · rintro (rfl | ⟨⟨x, hx, rfl⟩, hne⟩)
+      · exact ⟨c, hcm, by rw [if_pos hcu]⟩
+      · refine ⟨x, hx, ?_⟩
+        rw [if_neg]
+        intro hxu
+        exact hne (by rw [h.uid_inj x hx c hcm (hxu.trans hcu.symm)])
+    · rintro ⟨x, hx, rfl⟩
+      by_cases hxu : x.uid = uid
+      · rw [if_pos hxu]; exact Or.inl rfl
+      · rw [if_neg hxu]
+        refine Or.inr ⟨⟨x, hx, rfl⟩, ?_⟩
+        intro hal
+        exact hxu (by rw [h.alias_inj x hx c hcm hal]; exact hcu)
+  · exact h.orderNodup
+  · intro v; simp only [hmapuid]; exact h.orderEq v
+  · intro v; simp only [hmapuid]; exact h.textsEq v
+  · intro v hv; simp only [hmapuid]; exact h.trackSub v hv
+  · rw [kindSorted_iff]
+    apply ((kindSorted_iff st).1 h.sorted).congr
+    intro v _
+    unfold prioIn
+    rw [typeIn_map_congr v (fun x _ => hg x)]
+
+theorem inv_moveBefore {st : St} (h : Inv st) {what wh : Nat} (hw : what < st.order.length)
+    (hwh : wh ≤ st.order.length) (hcan : canMoveBefore st st.order 3 what wh = true) :
+    Inv { st with order := splice st.order what wh } := by
+  have hp := splice_perm st.order wh hw
+  have hspec := canMoveBefore_spec hcan hw
+  exact { h with
+    orderNodup := hp.nodup_iff.2 h.orderNodup
+    orderEq := fun v => (hp.mem_iff).trans (h.orderEq v)
+    sorted := (kindSorted_iff _).2
+      (sorted_splice ((kindSorted_iff st).1 h.sorted) hw hwh hspec.1 hspec.2) }
+
+theorem inv_track {st : St} (h : Inv st) {uid : Nat} (hc : st.contains uid = true) :
+    Inv { st with tracking := uid :: st.tracking.filter (· != uid) } := by
+  exact { h with
+    trackSub := by
+      intro v hv
+      simp only [List.mem_cons, List.mem_filter] at hv
+      rcases hv with rfl | hv
+      · exact contains_iff.1 hc
+      · exact h.trackSub v hv.1 }
+
+
+
+theorem inv_resetAliases {st : St} (h : Inv st) :
+    Inv { st with ids := st.order.reverse, names := (resetAliasesGo st st.order [] []).1,
+                  store := st.store.map (fun x =>
+                    (((resetAliasesGo st st.order [] []).2.find? (·.uid == x.uid)).getD x)) } := by
+  obtain ⟨cs, h1, h2, h3, h4, h5⟩ := resetAliasesGo_spec st st.order [] []
+  simp only [List.reverse_nil, List.nil_append] at h1
+  rw [h1]
+  have h5' : ∀ a, a ∈ (resetAliasesGo st st.order [] []).1 ↔ a ∈ cs.map (·.alias) := by
+    intro a; rw [h5 a]; simp
+  have hcsnd : (cs.map (·.uid)).Nodup := by rw [h2]; exact h.orderNodup
+  have hg : ∀ x ∈ st.store, (cs.find? (·.uid == x.uid)).getD x ∈ cs ∧
+      ((cs.find? (·.uid == x.uid)).getD x).uid = x.uid ∧
+      ((cs.find? (·.uid == x.uid)).getD x).type = x.type := by
+    intro x hx
+    have hxo : x.uid ∈ cs.map (·.uid) := by
+      rw [h2, h.orderEq]; exact List.mem_map_of_mem hx
+    cases hf : cs.find? (·.uid == x.uid) with
+    | none =>
+      have := find?_uid_isSome.2 hxo
+      rw [hf] at this; cases this
+    | some c' =>
+      have hc'm := List.mem_of_find?_eq_some hf
+      have hc'u : c'.uid = x.uid := by simpa using List.find?_some hf
+      refine ⟨hc'm, hc'u, ?_⟩
+      show c'.type = x.type
+      rw [(h3 c' hc'm).1, hc'u, typeOf_eq, typeIn_of_mem h.storeNodup hx]
+  have hmapuid : (st.store.map (fun x => (cs.find? (·.uid == x.uid)).getD x)).map (·.uid)
+      = st.store.map (·.uid) := by
+    rw [List.map_map]; apply List.map_congr_left; intro x hx; exact (hg x hx).2.1
+  constructor
+  · simp only [hmapuid]; exact h.storeNodup
+  · simp only [List.map_map]
+    apply nodup_map_of_injOn (nodup_of_nodup_map h.storeNodup)
+    intro x hx y hy hxy
+    simp only [Function.comp] at hxy
+    have := injOn_of_nodup_map h4 _ (hg x hx).1 _ (hg y hy).1 hxy
+    apply h.uid_inj x hx y hy
+    rw [← (hg x hx).2.1, ← (hg y hy).2.1, this]
+  · intro c' hc'
+    simp only [List.mem_map] at hc'
+    obtain ⟨x, hx, rfl⟩ := hc'
+    exact (h3 _ (hg x hx).1).2.1
+  · intro v
+    simp only [hmapuid, List.mem_reverse]
+    exact (h.orderEq v)
+  · intro a
+    simp only [h5' a, List.map_map, List.mem_map, Function.comp]
+    constructor
+    · rintro ⟨c, hc, rfl⟩
+      have hco : c.uid ∈ st.store.map (·.uid) := by
+        rw [← h.orderEq, ← h2]; exact List.mem_map_of_mem hc
+      obtain ⟨x, hx, hxu⟩ := List.mem_map.1 hco
+      refine ⟨x, hx, ?_⟩
+      rw [injOn_of_nodup_map hcsnd _ (hg x hx).1 c hc ((hg x hx).2.1.trans hxu)]
+    · rintro ⟨x, hx, rfl⟩
+      exact ⟨_, (hg x hx).1, rfl⟩
+  · exact h.orderNodup
+  · intro v; simp only [hmapuid]; exact h.orderEq v
+  · intro v; simp only [hmapuid]; exact h.textsEq v
+  · intro v hv; simp only [hmapuid]; exact h.trackSub v hv
+  · rw [kindSorted_iff]
+    apply ((kindSorted_iff st).1 h.sorted).congr
+    intro v _
+    unfold prioIn
+    rw [typeIn_map_congr v (fun x hx => (hg x hx).2)]
+
+/-- every operation of the model preserves the invariant -/
+theorem inv_step {st st' : St} {op : Op} {out : Out} (h : Inv st)
+    (hstep : step st op = some (st', out)) : Inv st' := by
+  cases op with
+  | emplace t fresh =>
+    simp only [step] at hstep
+    split at hstep
+    · cases hstep
+    · rename_i hf
+      simp only [Option.some.injEq, Prod.mk.injEq] at hstep
+      rw [← hstep.1]
+      have hn := newNameFor_spec st.names t
+      exact inv_insertCst h (by simpa using hf) hn.1 hn.2
+  | insert uid alias t fresh =>
+    simp only [step] at hstep
+    split at hstep
+    · cases hstep
+    · rename_i ids names u a hr
+      simp only [Option.some.injEq, Prod.mk.injEq] at hstep
+      rw [← hstep.1]
+      obtain ⟨rfl, rfl, hu, ha, hk⟩ := registerID_spec hr
+      exact inv_insertCst h hu ha hk
+  | erase uid =>
+    simp only [step] at hstep
+    split at hstep
+    · simp only [Option.some.injEq, Prod.mk.injEq] at hstep; rw [← hstep.1]; exact h
+    · split at hstep
+      · simp only [Option.some.injEq, Prod.mk.injEq] at hstep; rw [← hstep.1]; exact h
+      · rename_i c hc
+        simp only [Option.some.injEq, Prod.mk.injEq] at hstep
+        rw [← hstep.1]
+        exact inv_erase h hc
+  | setAlias uid name =>
+    simp only [step] at hstep
+    split at hstep
+    · simp only [Option.some.injEq, Prod.mk.injEq] at hstep; rw [← hstep.1]; exact h
+    · rename_i c hc
+      split at hstep
+      · simp only [Option.some.injEq, Prod.mk.injEq] at hstep; rw [← hstep.1]; exact h
+      · split at hstep
+        · simp only [Option.some.injEq, Prod.mk.injEq] at hstep; rw [← hstep.1]; exact h
+        · rename_i hcond
+          simp only [Option.some.injEq, Prod.mk.injEq] at hstep
+          rw [← hstep.1]
+          simp only [Bool.or_eq_true, not_or, Bool.not_eq_true] at hcond
+          have hn := needNameChange_false hcond.2
+          exact inv_setAlias h hc hn.1 hn.2
+  | moveBefore what wh =>
+    simp only [step] at hstep
+    split at hstep
+    · simp only [Option.some.injEq, Prod.mk.injEq] at hstep; rw [← hstep.1]; exact h
+    · split at hstep
+      · simp only [Option.some.injEq, Prod.mk.injEq] at hstep; rw [← hstep.1]; exact h
+      · split at hstep
+        · cases hstep
+        · split at hstep
+          · rename_i hlen hwh hcan
+            simp only [Option.some.injEq, Prod.mk.injEq] at hstep
+            rw [← hstep.1]
+            exact inv_moveBefore h (by omega) (by omega) hcan
+          · simp only [Option.some.injEq, Prod.mk.injEq] at hstep; rw [← hstep.1]; exact h
+  | resetAliases =>
+    simp only [step] at hstep
+    simp only [Option.some.injEq, Prod.mk.injEq] at hstep
+    rw [← hstep.1]
+    exact inv_resetAliases h
+  | track uid =>
+    simp only [step] at hstep
+    split at hstep
+    · rename_i hc
+      simp only [Option.some.injEq, Prod.mk.injEq] at hstep
+      rw [← hstep.1]
+      exact inv_track h hc
+    · simp only [Option.some.injEq, Prod.mk.injEq] at hstep; rw [← hstep.1]; exact h
+  | setExpression uid =>
+    simp only [step] at hstep
+    split at hstep
+    · simp only [Option.some.injEq, Prod.mk.injEq] at hstep; rw [← hstep.1]; exact h
+    · split at hstep <;>
+      (simp only [Option.some.injEq, Prod.mk.injEq] at hstep; rw [← hstep.1]; exact h)
+
+
+
+theorem run_eq_foldl (ops : List Op) : run ops =
+    ops.foldl (fun acc op => acc.bind (fun st => (step st op).map (·.1))) (some init) := by
+  cases ops <;> rfl
+
+theorem inv_foldl (ops : List Op) : ∀ (acc : Option St) (st : St), (∀ s, acc = some s → Inv s) →
+    ops.foldl (fun acc op => acc.bind (fun st => (step st op).map (·.1))) acc = some st → Inv st := by
+  induction ops with
+  | nil => intro acc st hacc h; exact hacc st h
+  | cons op ops ih =>
+    intro acc st hacc h
+    rw [List.foldl_cons] at h
+    refine ih _ st ?_ h
+    intro s hs
+    cases acc with
+    | none => cases hs
+    | some s0 =>
+      simp only [Option.bind_some, Option.map_eq_some_iff] at hs
+      obtain ⟨⟨s1, out⟩, hstep, rfl⟩ := hs
+      exact inv_step (hacc s0 rfl) hstep
+
+/-- the invariant holds after every admissible edit history -/
+theorem inv_history : inv_history_statement := by
+  intro ops st h
+  rw [run_eq_foldl] at h
+  exact inv_foldl ops (some init) st (fun s hs => by cases hs; exact inv_init) h
+
+/-- a successfully erased constituent (and its alias) is gone from every view of the state -/
+theorem erase_removes_everywhere : erase_removes_everywhere_statement := by
+  intro st u st' h hstep
+  simp only [step] at hstep
+  split at hstep
+  · simp at hstep
+  · split at hstep
+    · simp at hstep
+    · rename_i c0 hc0
+      simp only [Option.some.injEq, Prod.mk.injEq, and_true] at hstep
+      subst hstep
+      obtain ⟨hcm, hcu⟩ := find_eq_some hc0
+      refine ⟨?_, ?_, ?_, ?_, ?_, ?_⟩
+      · simp [List.mem_filter]
+      · rw [mem_map_uid_filter]; simp
+      · simp [List.mem_filter]
+      · simp [List.mem_filter]
+      · simp [List.mem_filter]
+      · intro c hc hcu'
+        rw [h.uid_inj c hc c0 hcm (hcu'.trans hcu.symm)]
+        simp [List.mem_filter]
+
+/-- non-vacuity of `erase_removes_everywhere`: a reachable state in which an erase succeeds -/
+example : ∃ st st', run [.emplace .term 7, .insert 3 "X1" .base 0] = some st ∧
+    step st (.erase 7) = some (st', .bool true) ∧ st'.order = [3] := by
+  refine ⟨_, _, rfl, rfl, ?_⟩; decide
 
 end CCVerif.Core
